@@ -77,11 +77,11 @@ def main():
         "version": 1,
         "setup_cmd": "/venv/bin/python -c \"import sys; sys.path.insert(0, '/repo/blackbird_python'); import blackbird, antlr4, sympy, numpy, networkx; print('ok')\"",
         "hooks": {"guard": "XANADUAI_BLACKBIRD_VERIF",
-                  "enable": "no source hooks exist: every seam (open wrapper, settrace, fork, PYTHONHASHSEED, real tmpfs tree) is applied from outside at run time, so /repo is used as is",
+                  "enable": "no source hooks exist: every seam (open wrapper, rewriting simulated files, settrace, fork, PYTHONHASHSEED / PYTHONOPTIMIZE, real tmpfs tree, private HOME/TMPDIR) is applied from outside at run time, so /repo is used as is",
                   "baseline_off_cmd": "cd /repo && /venv/bin/python -m pytest -ra -q -p no:cacheprovider --timeout=900 --continue-on-collection-errors",
                   "source_commits": hooks_commits, "add_only": True},
         "engines": [{"name": "bbsim", "path": "/verif/bbsim", "serves_properties": have,
-                     "kind_free_text": "deterministic simulator written for this repository: zygote/fork process model, seeded plan generator, fault seams (open wrapper, settrace interruptions, hash seed), ddmin shrinker, replay files"}],
+                     "kind_free_text": "deterministic simulator written for this repository: zygote/fork process model, seeded plan generator, fault seams (open wrapper for errno/short reads, on-disk torn/flipped files, settrace interruptions and seeded collector runs, interpreter hash seed / optimisation level), ddmin shrinker, replay files"}],
         "checks": checks,
         "not_applicable": [{"property_id": k, "reason": v} for k, v in sorted(na.items())],
         "notes": "Deterministic simulation with fault injection; see DESIGN.md. Exit codes: 0 held, 1 violation, 2 harness error/ineffective run.",
